@@ -317,6 +317,10 @@ macro_rules! impl_bop {
                 };
                 let b = bi - ay * k;
                 let d = di - (1.0 - ay) * k;
+                // where the exact belief or disbelief is 0, `bi` and `ay * k` are two differently rounded evaluations of the same
+                // product and their difference is a residue of either sign: clamp it at zero like the multinomial deduction does
+                let b = if b < 0.0 { 0.0 } else { b };
+                let d = if d < 0.0 { 0.0 } else { d };
                 let u = ui + k;
                 let a = ay;
                 // renormalise like the fusion operators: the deviation of b + d + u from 1 carried by the operands plus the
